@@ -438,16 +438,13 @@ def dedup(ctx):
             targets.append(n)
     if not targets:
         raise AnalysisError('anchor-vanished: duplicate_name assignment in genisoimage')
-    for tn in targets:
+    def bytewise_dominates(f, gg, dd, n):
         # a dominating test whose condition contains a byte-wise comparison
-        ok = False
-        for d in dom[tn.id]:
-            dn = g.nodes[d]
+        for d in dd[n.id]:
+            dn = gg.nodes[d]
             if dn.kind != 'test':
                 continue
-            # the test must hold on the way to the assignment (assignment under its True branch)
-            t = dn.ast
-            for sub in ast.walk(t):
+            for sub in ast.walk(dn.ast):
                 if isinstance(sub, ast.Call):
                     fn = norm(sub.func)
                     if fn == 'filecmp.cmp':
@@ -455,9 +452,26 @@ def dedup(ctx):
                         pos = sub.args[2] if len(sub.args) > 2 else None
                         val = sh[0].value if sh else pos
                         if val is not None and isinstance(val, ast.Constant) and val.value is False:
-                            ok = True
+                            return True
                     if fn.endswith('same_contents') or fn.endswith('files_equal'):
-                        ok = True
+                        return True
+        return False
+
+    for tn in targets:
+        ok = bytewise_dominates(fi, g, dom, tn)
+        val = tn.ast.value
+        if not ok and isinstance(val, ast.Call):
+            # the decision is taken in a helper of the tool: every result of it other than None is
+            # dominated, in the helper, by the byte-wise comparison
+            cs, kind = ctx.t._resolve(val, fi)
+            callee = [c for c in cs if c.module == fi.module] if kind == 'func' else []
+            if len(callee) == 1:
+                h = callee[0]
+                hg = ctx.cfg(h)
+                hdom = hg.dominators()
+                rets = [n for n in hg.nodes if n.kind == 'stmt' and isinstance(n.ast, ast.Return) and n.ast.value is not None and
+                        not (isinstance(n.ast.value, ast.Constant) and n.ast.value.value is None)]
+                ok = bool(rets) and all(bytewise_dominates(h, hg, hdom, r) for r in rets)
         obs.append(Ob('SA-DEDUP', '%s|duplicate_name = %s' % (fi.qual, norm(tn.ast.value)), ok, ctx.loc(fi, tn.ast),
                       '' if ok else 'two files are declared identical (and hard-linked) on equal size and equal 32-bit hash only; '
                       'no byte-wise comparison (filecmp.cmp(..., shallow=False)) dominates the decision'))
